@@ -55,6 +55,16 @@ func (c CaseFL) line() []byte {
 			w.Write(f.Method)
 			sp()
 			w.Write(f.URI)
+		case "missing-uri":
+			w.Write(f.Method)
+			sp()
+			sp()
+			w.Write(f.Ver)
+		case "missing-method":
+			sp()
+			w.Write(f.URI)
+			sp()
+			w.Write(f.Ver)
 		case "extra-token":
 			w.Write(f.Method)
 			sp()
@@ -288,7 +298,30 @@ func evalFL(c CaseFL) Result {
 	return ok(true, "reply", "eol:"+string(B(f.EOL).String()))
 }
 
-var reqMisses = []string{"double-space-1", "double-space-2", "tab-1", "tab-2", "missing-token", "extra-token", "leading-space", "trailing-space", "trailing-tab"}
+var reqMisses = []string{"double-space-1", "double-space-2", "tab-1", "tab-2", "missing-token", "missing-uri", "missing-method", "extra-token", "leading-space", "trailing-space", "trailing-tab"}
+
+// enumNearMissCuts: every request near-miss for a short, a table and two long method tokens, one-shot and under
+// every two-step cut of the line (the rejection must not depend on where the stream was cut).
+func enumNearMissCuts(emit func(CaseFL) bool) {
+	for _, m := range []string{"ACK", "INVITE", "X-CUSTOM-METHOD", "ABCDEFGHIJKLM", "NOTIFYNOTIFYNOTIFY"} {
+		for _, miss := range reqMisses {
+			for _, eol := range []string{"\r\n", "\n"} {
+				for _, msg := range []bool{false, true} {
+					c := CaseFL{FL: FLSpec{Req: true, Method: B(m), URI: B("sip:u@h"), Ver: B("SIP/2.0"), EOL: B(eol)},
+						Tail: B("Via: SIP/2.0/UDP h\r\n\r\n"), Msg: msg, Miss: miss}
+					n := len(c.line()) + 2
+					for cut := 0; cut <= n; cut++ {
+						c.Cut = cut
+						if !emit(c) {
+							return
+						}
+					}
+				}
+			}
+		}
+	}
+}
+
 var rplMisses = []string{"two-digit-code", "four-digit-code", "nondigit-code", "nondigit-code-0", "nondigit-code-1", "nondigit-code-lo-0",
 	"nondigit-code-lo-1", "nondigit-code-lo-2", "no-space-after-code", "double-space-code", "tab-after-code"}
 
